@@ -49,12 +49,14 @@ RefReplace(in) ==
   ELSE IF md.m \in {"n", "L"} THEN [mode |-> md.m, argvs |-> BatchRun(in.init, in.lines, md.k), exit |-> 0]
   ELSE [mode |-> "none", argvs |-> BatchRun(in.init, in.lines, 1000000), exit |-> 0]
 
-\* Domain of the property: lines free of quotes, backslashes, blanks at either end;
+\* Domain of the property: lines free of quotes, backslashes and leading blanks;
 \* R not empty; in the -n / -L modes no blanks inside lines either (then lines = arguments).
 BlankOrQuote(c) == c \in {32, 9, 39, 34, 92}
 LineOk(ln, inner) ==
   /\ \A i \in DOMAIN ln : ln[i] \notin {39, 34, 92, 10, 0} /\ (~inner => ln[i] \notin {32, 9})
-  /\ (ln # <<>> => ln[1] \notin {32, 9} /\ ln[Len(ln)] \notin {32, 9})
+  \* the property excludes leading blanks only; in the -n / -L modes a trailing blank
+  \* would continue the line, which is C04's subject
+  /\ (ln # <<>> => ln[1] \notin {32, 9} /\ (~inner => ln[Len(ln)] \notin {32, 9}))
 InDomainReplace(in) ==
   LET md == Mode(in.opts) IN
   /\ \A j \in DOMAIN in.lines : LineOk(in.lines[j], md.m = "I")
